@@ -127,40 +127,48 @@ structure ScanOut where
   nBraces : Int
   nParens : Int
   last : UInt8
+  closed : Bool    -- ghost (not in the Go code): every `handleRaw` search found its end quote
 deriving DecidableEq, Repr, Inhabited
 
+/-- does `q` occur in `s`, i.e. does `handleRaw`'s `bytes.Index` find the end quote? (ghost) -/
+def rawFound (q : Bytes) : Bytes → Bool
+  | [] => false
+  | x :: xs => q.isPrefixOf (x :: xs) || rawFound q xs
+
 /-- The labelled `loop:` with its inner `for i, c := range line`. -/
-def scan : Nat → Int → Int → UInt8 → Bytes → Bytes → Bytes → Bytes → Option ScanOut
-  | 0, _, _, _, _, _, _, _ => none
-  | _ + 1, nB, nP, last, out, pend, [], tail =>
-    some ⟨out, pend.reverse, tail, nB, nP, last⟩
-  | f + 1, nB, nP, last, out, pend, c :: cs, tail =>
-    if c == LBRACE then scan f (nB + 1) nP last out (c :: pend) cs tail
-    else if c == RBRACE then scan f (nB - 1) nP last out (c :: pend) cs tail
-    else if c == LPAREN then scan f nB (nP + 1) last out (c :: pend) cs tail
-    else if c == RPAREN then scan f nB (nP - 1) last out (c :: pend) cs tail
+def scan : Nat → Int → Int → UInt8 → Bool → Bytes → Bytes → Bytes → Bytes → Option ScanOut
+  | 0, _, _, _, _, _, _, _, _ => none
+  | _ + 1, nB, nP, last, clo, out, pend, [], tail =>
+    some ⟨out, pend.reverse, tail, nB, nP, last, clo⟩
+  | f + 1, nB, nP, last, clo, out, pend, c :: cs, tail =>
+    if c == LBRACE then scan f (nB + 1) nP last clo out (c :: pend) cs tail
+    else if c == RBRACE then scan f (nB - 1) nP last clo out (c :: pend) cs tail
+    else if c == LPAREN then scan f nB (nP + 1) last clo out (c :: pend) cs tail
+    else if c == RPAREN then scan f nB (nP - 1) last clo out (c :: pend) cs tail
     else if c == SLASH then
       match cs with
-      | [] => scan f nB nP last out (c :: pend) cs tail
+      | [] => scan f nB nP last clo out (c :: pend) cs tail
       | d :: ds =>
         if d == SLASH then
           -- slash-slash comment: `last = lastNonWhiteSpace(line[:i]); break loop`
-          some ⟨out, pend.reverse ++ c :: cs, tail, nB, nP, lastNonWsRev pend⟩
+          some ⟨out, pend.reverse ++ c :: cs, tail, nB, nP, lastNonWsRev pend, clo⟩
         else if d == STAR then
           -- slash-star comment: copy up to and including "*/", re-split the line
           let r := splitRaw starSlash (ds ++ tail)
           let lt := splitLine r.2
-          scan f nB nP (lastNonWs lt.1) (out ++ (pend.reverse ++ c :: d :: r.1)) [] lt.1 lt.2
-        else scan f nB nP last out (c :: pend) cs tail
+          scan f nB nP (lastNonWs lt.1) (clo && rawFound starSlash (ds ++ tail))
+            (out ++ (pend.reverse ++ c :: d :: r.1)) [] lt.1 lt.2
+        else scan f nB nP last clo out (c :: pend) cs tail
     else if c == DQUOTE || c == SQUOTE then
       -- cooked string: `dst = append(dst, line[:len(line)-len(suffix)]...); line = suffix`
       let suffix := skipCooked c cs
-      scan f nB nP last (out ++ (pend.reverse ++ c :: cs.take (cs.length - suffix.length))) [] suffix tail
+      scan f nB nP last clo (out ++ (pend.reverse ++ c :: cs.take (cs.length - suffix.length))) [] suffix tail
     else if c == BTICK then
       let r := splitRaw backTick (cs ++ tail)
       let lt := splitLine r.2
-      scan f nB nP (lastNonWs lt.1) (out ++ (pend.reverse ++ c :: r.1)) [] lt.1 lt.2
-    else scan f nB nP last out (c :: pend) cs tail
+      scan f nB nP (lastNonWs lt.1) (clo && rawFound backTick (cs ++ tail))
+        (out ++ (pend.reverse ++ c :: r.1)) [] lt.1 lt.2
+    else scan f nB nP last clo out (c :: pend) cs tail
 
 /-- Body of the outer loop for a preprocessor line (`if preproc || (line[0] == '#')`):
 the text appended to dst (after the pending blank lines) and the new state. -/
@@ -195,7 +203,7 @@ def codeLine (o : Opts) (ii : Nat) (st : St) (line tail : Bytes) : Option (Bytes
   let cb := closeBracesOf line
   let nB := nBracesAtLineStart st line
   let line1 := line.drop cb
-  match scan (line1.length + tail.length + 1) nB st.nParens (lastNonWs line1) [] [] line1 tail with
+  match scan (line1.length + tail.length + 1) nB st.nParens (lastNonWs line1) true [] [] line1 tail with
   | none => none
   | some r =>
     some (List.replicate (codeIndent o ii st nB) o.indentByte ++
